@@ -76,6 +76,7 @@ const (
 type c10Hist struct {
 	start, reset int   // attempts so far per method (may be symbolic)
 	last         int64 // last attempt, ns (may be symbolic)
+	lastG        uint64 // GTID set (bits) recorded at the last attempt; 0 = the default {t0}
 }
 
 type verifC10 struct {
@@ -295,7 +296,7 @@ func (c *verifC10) arm() {
 			w.app.replRepairState[h] = &ReplicationRepairState{
 				LastAttempt:      verifnd.TimeAt(hs.last),
 				History:          map[ReplicationRepairAlgorithmType]int{StartSlave: hs.start, ResetSlave: hs.reset},
-				LastGTIDExecuted: verifnd.GTIDString(1),
+				LastGTIDExecuted: verifnd.GTIDString(hs.lastG | 1),
 			}
 		}
 	}
@@ -804,12 +805,37 @@ func H_C10_repair_history() {
 			verifnd.Assume(verifnd.And(hs.start <= c.maxAttempts+1, hs.reset <= c.maxAttempts+1))
 			hs.last = verifnd.Int64("hist.last." + h)
 			verifnd.Assume(verifnd.And(hs.last >= 0, hs.last < int64(1)<<62))
+			// what the replica had executed at that attempt, and what it has executed now
+			// (the master holds {t0,t1}; a replica holds {t0} or {t0,t1})
+			hs.lastG = 1 | uint64(verifnd.Choose("hist.gtid."+h, 2))<<1
+			s.Executed = 1 | uint64(verifnd.Choose("gtid.now."+h, 2))<<1
 			c.hist[h] = hs
 		}
 	}
+	ms := c.w.fleet.Servers[c.master]
+	ms.Executed, ms.OwnBits = 3, 3
+	c.w.syncGTIDOwners()
 	c.consistentSemiSync()
 	c.arm()
+	t0 := verifnd.ClockNS()
 	c.run()
+	// the attempts counted against a replica are forgotten only after the cooldown and only when
+	// the replica has executed something it had not executed at the last attempt
+	for _, h := range c.replicas {
+		hs := c.hist[h]
+		if hs == nil {
+			continue
+		}
+		if _, kept := c.w.app.replRepairState[h]; !kept {
+			verifnd.Reach("C10.history-forgotten")
+			s := c.w.fleet.Servers[h]
+			verifnd.Assert(s.Executed&^hs.lastG != 0, "repair.history-forgotten-only-after-progress")
+			verifnd.Assert(hs.last < verifnd.ClockNS()-c.cooldown, "repair.history-forgotten-only-after-cooldown")
+		} else {
+			verifnd.Reach("C10.history-kept")
+		}
+	}
+	_ = t0
 	c.progress()
 	for _, h := range c.replicas {
 		hs := c.hist[h]
